@@ -2,7 +2,7 @@
     lemmas, and with it the struct-level round trip [rt_all] for the whole model. *)
 From Coq Require Import ZArith List Bool String Lia PeanoNat.
 From KV Require Import Base BaseProofs Wire WireProofs Cursor CursorProofs Schema SchemaSem SchemaSemEq FaithfulProofs
-  Roundtrip RoundtripEq RoundtripProofs RtCustomLib RtRequestItem RtCredential RtKeyBlock RtObject RtTypedObject RtImportRequest.
+  Roundtrip RoundtripEq RoundtripProofs RtCustomLib RtRequestItem RtResponseItem RtAttribute RtCredential RtKeyBlock RtObject RtTypedObject RtImportRequest.
 Import ListNotations.
 Open Scope Z_scope.
 
@@ -18,10 +18,14 @@ Section All.
     unfold conf_custom_of in Hc. cbv zeta in Hc.
     destruct (String.eqb (t_name d) "kmip.RequestBatchItem") eqn:E1.
     { apply String.eqb_eq in E1. exact (rt_request_item S OPS ATTRS OBJS F f HQ fc st d tag fs items st' sc Ed Hcd E1 He Hc). }
-    destruct (String.eqb (t_name d) "kmip.Credential") eqn:E2.
-    { apply String.eqb_eq in E2. exact (rt_credential S OPS ATTRS OBJS F f HQ fc st d tag fs items st' sc Ed Hcd E2 He Hc). }
-    destruct (String.eqb (t_name d) "kmip.KeyBlock") eqn:E3.
-    { apply String.eqb_eq in E3. exact (rt_key_block S OPS ATTRS OBJS F f HQ fc st d tag fs items st' sc Ed Hcd E3 He Hc). }
+    destruct (String.eqb (t_name d) "kmip.ResponseBatchItem") eqn:E2.
+    { apply String.eqb_eq in E2. exact (rt_response_item S OPS ATTRS OBJS F f HQ fc st d tag fs items st' sc Ed Hcd E2 He Hc). }
+    destruct (String.eqb (t_name d) "kmip.Attribute") eqn:E3.
+    { apply String.eqb_eq in E3. exact (rt_attribute S OPS ATTRS OBJS F f HQ fc st d tag fs items st' sc Ed Hcd E3 He Hc). }
+    destruct (String.eqb (t_name d) "kmip.Credential") eqn:E4.
+    { apply String.eqb_eq in E4. exact (rt_credential S OPS ATTRS OBJS F f HQ fc st d tag fs items st' sc Ed Hcd E4 He Hc). }
+    destruct (String.eqb (t_name d) "kmip.KeyBlock") eqn:E5.
+    { apply String.eqb_eq in E5. exact (rt_key_block S OPS ATTRS OBJS F f HQ fc st d tag fs items st' sc Ed Hcd E5 He Hc). }
     destruct (String.eqb (t_name d) "payloads.GetResponsePayload") eqn:E6.
     { apply String.eqb_eq in E6. exact (rt_get_response S OPS ATTRS OBJS F f HQ fc st d tag fs items st' sc Ed Hcd E6 He Hc). }
     destruct (String.eqb (t_name d) "payloads.RegisterRequestPayload") eqn:E7.
